@@ -11,7 +11,8 @@ namespace Lcapy.C03
 open Lcapy.MNA Ix
 variable {K : Type} [Field K]
 
-/-- **scaling**: scaling every independent source (and initial condition) by `a` scales every
+/-- **scaling** (ALL independent quantities at once; one source: Props/C03Groups.lean `scaling_one_source`,
+    `scaling_one_of_many`): scaling every independent source (and initial condition) by `a` scales every
     node voltage and branch current by `a`.  Any netlist, any analysis kind, any point s. -/
 theorem scaling (kind : Kind) (s a : K) (cs : List (Cpt K)) (x : Ix → K)
     (h : Solves kind s cs x) :
@@ -52,13 +53,15 @@ theorem superposition_unique (kind : Kind) (s : K) (cs cs' : List (Cpt K)) (x y 
     ∀ i, C01.Unknown kind s (List.zipWith Cpt.addSrc cs cs') i → z i = x i + y i :=
   C01.mna_unique kind s _ z _ hns hz (superposition kind s cs cs' x y hs hx hy)
 
-/-- a killed current source (value 0) is an open circuit: it injects nothing anywhere -/
+/-- REMARK (the definition of `outflow` at value 0, not a claimed result; the kill content is Props/C03Wire.lean
+    `kill_V_equiv`): a killed current source (value 0) injects nothing anywhere, like an open circuit -/
 theorem killed_I_is_open (kind : Kind) (s : K) (x : Ix → K) (n1 n2 k : Nat) :
     outflow kind s x k (.I n1 n2 0) = outflow kind s x k (.Open n1 n2) := by
   simp [outflow, twoTerm]
 
-/-- a killed voltage source (value 0) forces its two nodes to the same voltage, like the wire
-    Lcapy replaces it with (`V._kill` ↦ `W`) -/
+/-- REMARK (the definition of `laws` at value 0; says nothing about currents/KCL — the statement that a killed V
+    source IS the wire Lcapy replaces it with, node merging included, is Props/C03Wire.lean `kill_V_equiv`):
+    a killed voltage source (value 0) forces its two nodes to the same voltage -/
 theorem killed_V_is_short (kind : Kind) (s : K) (x : Ix → K) (n1 n2 m : Nat) :
     (∀ p ∈ laws kind s x (.V n1 n2 m 0), p.2 = 0) ↔ volt x n1 = volt x n2 := by
   simp [laws, vd, sub_eq_zero]
@@ -119,12 +122,13 @@ end
 section
 open Lcapy.Noise
 
-/-- two sources of ONE noise identifier seen through the same transfer function: amplitudes add -/
+/-- REMARK (sanity of the SPEC formula on a 2-element list, same transfer value; the claimed noise content is
+    Props/C03Noise.lean `parts_power_is_noisePower`, `lookup_superAdd`, `noise_sub_zero_left`): one identifier, amplitudes add -/
 theorem noise_same_id_amplitude (h : K × K) (a b : K) :
     noisePower [[(h, a), (h, b)]] = normSq h * ((a + b) * (a + b)) := by
   simp [noisePower, groupSum, normSq]; ring
 
-/-- two sources with DISTINCT identifiers: powers add -/
+/-- REMARK (sanity of the spec formula, 2 sources): distinct identifiers, powers add -/
 theorem noise_distinct_ids_power (h : K × K) (a b : K) :
     noisePower [[(h, a)], [(h, b)]] = normSq h * (a * a + b * b) := by
   simp [noisePower, groupSum, normSq]; ring
@@ -148,8 +152,8 @@ theorem noisePower_perm (gs gs' : List (List ((K × K) × K))) (hp : gs.Perm gs'
   | swap x y l => simp [noisePower]; ring
   | trans _ _ ih1 ih2 => rw [ih1, ih2]
 
-/-- splitting one identifier group into two identifiers changes the power by the cross term:
-    same-identifier sources are NOT interchangeable with distinct ones -/
+/-- REMARK (sanity of the spec formula, 2 sources): splitting one identifier group into two identifiers changes the
+    power by the cross term: same-identifier sources are NOT interchangeable with distinct ones -/
 theorem noise_cross_term (h1 h2 : K × K) (a b : K) :
     noisePower [[(h1, a), (h2, b)]] =
       noisePower [[(h1, a)], [(h2, b)]] + 2 * (a * b) * (h1.1 * h2.1 + h1.2 * h2.2) := by
@@ -190,7 +194,7 @@ theorem each_source_alone_unique (kind : Kind) (s : K) (cs : List (Cpt K)) (xs :
 theorem alone_card (cs : List (Cpt K)) : (alone cs).length = cs.length := alone_length cs
 
 /-- non-vacuity: V1 1 0 6; R1 1 2 2; I1 2 0 3 (ground = node 0) at dc — the two single-source
-    solutions (V alone: 6 V at both nodes, −0 A … ; I alone: node 2 at −6 V) and their sum -/
+    solutions (V alone: 6 V at both nodes, −0 A … ; I alone: node 2 at +6 V) and their sum -/
 example :
     let cs : List (Cpt ℚ) := [.V 1 0 0 6, .R 1 2 2, .I 2 0 3]
     alone cs = [[.V 1 0 0 6, .R 1 2 2, .I 2 0 0], [.V 1 0 0 0, .R 1 2 2, .I 2 0 0],
